@@ -8,35 +8,115 @@ Open Scope N_scope.
 Local Notation item := Source.item.
 Ltac slia := unfold str, char in *; lia.
 
-(** * source items with references as the token trees of Scan.v (a printed reference is text without '<') *)
-Fixpoint rconv (i : ritem) : Scan.item :=
-  match i with
-  | RText s => IText s
-  | RVar w1 n w2 fm => IText (rprint (RVar w1 n w2 fm))
-  | RComp w1 n w2 kids a b c => IComp w1 w2 a b c n (map rconv kids)
-  | RRef ns path => IText (rprint (RRef ns path))
+(** * source items as token trees of Scan.v: text, variables and argument-less references are text
+    without '<'; a reference with arguments is a run of tokens (its argument strings may hold
+    components, which are balanced) *)
+Fixpoint aconv (a : aitem) : Scan.item :=
+  match a with
+  | AComp w1 n w2 kids a b c => IComp w1 w2 a b c n (map aconv kids)
+  | AText s => IText s
+  | AVar w1 n w2 fm => IText (aprint (AVar w1 n w2 fm))
+  | ARef ns path => IText (aprint (ARef ns path))
   end.
+Definition key_open (k : str) : str := c_quote :: k ++ c_quote :: c_colon :: 32 :: [c_quote].
+Definition argtoks (ka : str * rarg) : list Scan.item :=
+  match snd ka with
+  | RAStr its => IText (key_open (fst ka)) :: map aconv its ++ [IText [c_quote]]
+  | RALit l => [IText (member_text (fst ka, lit_display l))]
+  end.
+Fixpoint memtoks (args : list (str * rarg)) : list Scan.item :=
+  match args with
+  | [] => []
+  | x :: r => match r with [] => argtoks x | _ :: _ => argtoks x ++ IText [c_comma; 32] :: memtoks r end
+  end.
+Definition refa_open (ns : option pseg) (path : list pseg) : str := s_fk ++ keypath_text ns path ++ [c_comma; 32; c_lb].
+Definition refatoks (ns : option pseg) (path : list pseg) (args : list (str * rarg)) : list Scan.item :=
+  IText (refa_open ns path) :: memtoks args ++ [IText [c_rb; c_rp]].
+Fixpoint rconv (i : ritem) : list Scan.item :=
+  match i with
+  | RText s => [IText s]
+  | RVar w1 n w2 fm => [IText (rprint (RVar w1 n w2 fm))]
+  | RComp w1 n w2 kids a b c => [IComp w1 w2 a b c n (flat_map rconv kids)]
+  | RRef ns path => [IText (rprint (RRef ns path))]
+  | RRefA ns path args => refatoks ns path args
+  end.
+Definition rconvs (l : list ritem) : list Scan.item := flat_map rconv l.
 
-Lemma flats_rconv_list l : Forall (fun k => flats (toks (rconv k)) = rprint k) l ->
-  flats (toks_list (map rconv l)) = rprint_list l.
+Lemma toks_list_app a b : toks_list (a ++ b) = toks_list a ++ toks_list b.
+Proof. induction a as [|x a IH]; [reflexivity|]. cbn [app toks_list]. rewrite IH, app_assoc. reflexivity. Qed.
+Lemma flats_toks_app a b : flats (toks_list (a ++ b)) = flats (toks_list a) ++ flats (toks_list b).
+Proof. rewrite toks_list_app. apply flats_app. Qed.
+Lemma flats_text s : flats (toks_list [IText s]) = s.
+Proof. cbn. rewrite !app_nil_r. reflexivity. Qed.
+Lemma flats_cons_text s l : flats (toks_list (IText s :: l)) = s ++ flats (toks_list l).
+Proof. change (IText s :: l) with ([IText s] ++ l). rewrite flats_toks_app, flats_text. reflexivity. Qed.
+Lemma items_wf_app a b : Scan.items_wf a -> Scan.items_wf b -> Scan.items_wf (a ++ b).
+Proof. induction a as [|x a IH]; intros Ha Hb; [exact Hb|]. cbn [app Scan.items_wf] in *. destruct Ha as [H1 H2]. split; [exact H1 | apply IH; assumption]. Qed.
+
+Lemma flats_comp w1 w2 a b c n kids :
+  flats (toks (IComp w1 w2 a b c n kids)) = open_tag w1 n w2 ++ flats (toks_list kids) ++ close_tag a b n c.
 Proof.
-  induction 1 as [|k r Hk Hr IH]; [reflexivity|].
-  cbn [map toks_list]. rewrite flats_app, Hk, IH. reflexivity.
+  rewrite toks_comp.
+  change (TOpen w1 w2 n :: toks_list kids ++ [TClose a b c n]) with ([TOpen w1 w2 n] ++ toks_list kids ++ [TClose a b c n]).
+  rewrite !flats_app. unfold flats at 1 3. cbn [map concat flat]. rewrite !app_nil_r. reflexivity.
 Qed.
-Lemma flats_rconv : forall i, flats (toks (rconv i)) = rprint i.
+Lemma flats_item_list (l : list Scan.item) (f : Scan.item -> str) :
+  Forall (fun k => flats (toks k) = f k) l -> flats (toks_list l) = concat (map f l).
+Proof. induction 1 as [|k r Hk Hr IH]; [reflexivity|]. cbn [toks_list map concat]. rewrite flats_app, Hk, IH. reflexivity. Qed.
+
+Lemma flats_aconv : forall a, flats (toks (aconv a)) = aprint a.
 Proof.
-  apply (ritem_ind2 (fun i => flats (toks (rconv i)) = rprint i)).
+  apply (aitem_ind2 (fun a => flats (toks (aconv a)) = aprint a)).
   - intros s. cbn. apply app_nil_r.
-  - intros w1 n w2 fm. cbn [rconv toks]. unfold flats. cbn [map concat flat]. apply app_nil_r.
-  - intros w1 n w2 kids a b c IH. cbn [rconv]. rewrite toks_comp.
-    change (TOpen w1 w2 n :: toks_list (map rconv kids) ++ [TClose a b c n])
-      with ([TOpen w1 w2 n] ++ toks_list (map rconv kids) ++ [TClose a b c n]).
-    rewrite !flats_app. rewrite (flats_rconv_list kids IH).
-    unfold flats. cbn [map concat flat]. rewrite !app_nil_r. rewrite rprint_comp. reflexivity.
-  - intros ns path. cbn [rconv toks]. unfold flats. cbn [map concat flat]. apply app_nil_r.
+  - intros w1 n w2 fm. cbn [aconv toks]. unfold flats. cbn [map concat flat]. apply app_nil_r.
+  - intros w1 n w2 kids a b c IH. cbn [aconv aprint]. rewrite flats_comp. f_equal. f_equal.
+    induction IH as [|k r Hk Hr IHr]; [reflexivity|]. cbn [map toks_list concat]. rewrite flats_app, Hk, IHr. reflexivity.
+  - intros ns path. cbn [aconv toks]. unfold flats. cbn [map concat flat]. apply app_nil_r.
 Qed.
-Lemma flats_rconv_items l : flats (toks_list (map rconv l)) = rprint_list l.
-Proof. apply flats_rconv_list. apply Forall_forall. intros k _. apply flats_rconv. Qed.
+Lemma flats_aconvs l : flats (toks_list (map aconv l)) = aprint_list l.
+Proof.
+  induction l as [|a r IH]; [reflexivity|]. cbn [map toks_list]. unfold aprint_list in *. cbn [map concat].
+  rewrite flats_app, flats_aconv, IH. reflexivity.
+Qed.
+
+Lemma flats_argtoks ka : flats (toks_list (argtoks ka)) = member_text (fst ka, value_text (snd ka)).
+Proof.
+  unfold argtoks. destruct (snd ka) as [its|l].
+  - rewrite flats_cons_text, flats_toks_app, flats_aconvs, flats_text. unfold key_open, member_text, value_text. cbn [fst snd app].
+    rewrite <- !app_assoc. reflexivity.
+  - rewrite flats_text. reflexivity.
+Qed.
+Lemma members_text_cons2 x l : l <> [] -> members_text (x :: l) = member_text x ++ c_comma :: 32 :: members_text l.
+Proof. destruct l; [congruence | reflexivity]. Qed.
+Lemma flats_memtoks args : flats (toks_list (memtoks args)) = members_text (args_text args).
+Proof.
+  induction args as [|ka r IH]; [reflexivity|]. destruct r as [|kb r'].
+  - cbn [memtoks args_text map members_text]. apply flats_argtoks.
+  - set (r := kb :: r') in *. change (memtoks (ka :: r)) with (argtoks ka ++ IText [c_comma; 32] :: memtoks r).
+    change (args_text (ka :: r)) with ((fst ka, value_text (snd ka)) :: args_text r).
+    rewrite members_text_cons2 by (unfold r; discriminate).
+    rewrite flats_toks_app, flats_argtoks, flats_cons_text, IH. reflexivity.
+Qed.
+Lemma flats_refatoks ns path args : flats (toks_list (refatoks ns path args)) = print_refa ns path args.
+Proof.
+  unfold refatoks. rewrite flats_cons_text, flats_toks_app, flats_memtoks, flats_text.
+  unfold refa_open, print_refa, obj_text. rewrite <- !app_assoc. cbn [app]. rewrite <- !app_assoc. reflexivity.
+Qed.
+
+Lemma flats_rconv : forall i, flats (toks_list (rconv i)) = rprint i.
+Proof.
+  apply (ritem_ind2 (fun i => flats (toks_list (rconv i)) = rprint i)).
+  - intros s. apply flats_text.
+  - intros w1 n w2 fm. apply flats_text.
+  - intros w1 n w2 kids a b c IH. cbn [rconv toks_list]. rewrite app_nil_r, flats_comp, rprint_comp. f_equal. f_equal.
+    induction IH as [|k r Hk Hr IHr]; [reflexivity|]. cbn [flat_map]. rewrite flats_toks_app, Hk, IHr. reflexivity.
+  - intros ns path. apply flats_text.
+  - intros ns path args. apply flats_refatoks.
+Qed.
+Lemma flats_rconv_items l : flats (toks_list (rconvs l)) = rprint_list l.
+Proof.
+  induction l as [|i r IH]; [reflexivity|]. unfold rconvs in *. cbn [flat_map]. rewrite flats_toks_app, flats_rconv, IH. reflexivity.
+Qed.
 
 Section RT.
 Variable idc : str -> idres.
@@ -45,27 +125,130 @@ Notation ritem_wfb := (ritem_wfb idc).
 Notation ritems_wfb := (ritems_wfb idc).
 Notation name_wf := (name_wf idc).
 
-Lemma ritems_wf_conv_list l : Forall (fun k => ritem_wfb k = true -> Scan.item_wf (rconv k)) l ->
-  ritems_wfb l = true -> Scan.items_wf (map rconv l).
+(** a component whose name the identifier oracle accepts *)
+Definition top_ok (it : Scan.item) : Prop :=
+  match it with IText _ => True | IComp _ _ _ _ _ n _ => name_wf s_comp_ n = true end.
+
+Lemma aconv_wf : forall a, aitem_wfb idc a = true -> Scan.item_wf (aconv a) /\ top_ok (aconv a).
 Proof.
-  induction 1 as [|k r Hk Hr IH]; intros H; [exact I|].
-  unfold RoundTripRef1.ritems_wfb in H. cbn [forallb] in H. apply andb_true_iff in H as [H1 H2].
-  cbn [map Scan.items_wf]. split; [apply Hk; exact H1 | apply IH; exact H2].
-Qed.
-Lemma ritem_wf_conv : forall i, ritem_wfb i = true -> Scan.item_wf (rconv i).
-Proof.
-  apply (ritem_ind2 (fun i => ritem_wfb i = true -> Scan.item_wf (rconv i))).
-  - intros s H. cbn [rconv Scan.item_wf]. cbn [RoundTripRef1.ritem_wfb] in H. eapply forallb_no_char; [exact H | reflexivity].
-  - intros w1 n w2 fm H. cbn [rconv Scan.item_wf]. apply (rnoncomp_no_lt idc); [exact H | reflexivity].
-  - intros w1 n w2 kids a b c IH H. cbn [rconv]. apply item_wf_comp.
-    cbn [RoundTripRef1.ritem_wfb] in H. repeat (apply andb_true_iff in H as [H ?]).
+  apply (aitem_ind2 (fun a => aitem_wfb idc a = true -> Scan.item_wf (aconv a) /\ top_ok (aconv a))).
+  - intros s H. cbn [aitem_wfb] in H. apply andb_true_iff in H as [H _]. split; [|exact I].
+    cbn [aconv Scan.item_wf]. eapply forallb_no_char; [exact H | reflexivity].
+  - intros w1 n w2 fm H. split; [|exact I]. cbn [aconv Scan.item_wf aprint].
+    apply (var_no_char idc); try reflexivity; try (intro E; vm_compute in E; discriminate); exact H.
+  - intros w1 n w2 kids a b c IH H. cbn [aitem_wfb] in H. repeat (apply andb_true_iff in H as [H ?]).
+    split; [|cbn [aconv top_ok]; assumption].
+    cbn [aconv]. apply item_wf_comp.
     refine (conj _ (conj _ (conj _ (conj _ (conj _ (conj _ _)))))); try (apply wsb_all_ws; assumption).
     + eapply name_ok_of_wf; eassumption.
-    + apply (ritems_wf_conv_list kids IH). assumption.
-  - intros ns path H. cbn [rconv Scan.item_wf]. apply (rnoncomp_no_lt idc); [exact H | reflexivity].
+    + match goal with Hk : forallb (aitem_wfb idc) kids = true |- _ => rename Hk into Hkids end.
+      clear -IH Hkids. induction IH as [|k r Hk Hr IHr]; [exact I|].
+      cbn [forallb] in Hkids. apply andb_true_iff in Hkids as [H1 H2]. cbn [map Scan.items_wf].
+      split; [apply Hk; exact H1 | apply IHr; exact H2].
+  - intros ns path H. split; [|exact I]. cbn [aconv Scan.item_wf aprint].
+    apply (ref_no_char idc); try reflexivity; try (intro E; vm_compute in E; discriminate); exact H.
 Qed.
-Lemma ritems_wf_conv l : ritems_wfb l = true -> Scan.items_wf (map rconv l).
-Proof. apply ritems_wf_conv_list. apply Forall_forall. intros k _. apply ritem_wf_conv. Qed.
+Lemma aconvs_wf l : forallb (aitem_wfb idc) l = true -> Scan.items_wf (map aconv l) /\ Forall top_ok (map aconv l).
+Proof.
+  induction l as [|a r IH]; intros H; [split; [exact I | constructor]|].
+  cbn [forallb] in H. apply andb_true_iff in H as [Ha Hr]. destruct (aconv_wf a Ha) as [W T]. destruct (IH Hr) as [Wr Tr].
+  cbn [map Scan.items_wf]. split; [split; assumption | constructor; assumption].
+Qed.
+
+Lemma text_tok_wf s : no_char c_lt s -> Scan.items_wf [IText s] /\ Forall top_ok [IText s].
+Proof. intros H. split; [cbn; auto | repeat constructor]. Qed.
+Lemma key_no_lt k : name_wf s_var_ k = true -> no_char c_lt k.
+Proof. intros H. destruct (name_wf_parts idc _ _ H) as (_ & Hnc & _). eapply forallb_no_char; [exact Hnc | reflexivity]. Qed.
+
+(** the display of an accepted literal: decimal digits, '-', or true / false *)
+Definition litch (c : char) : bool := ((48 <=? c) && (c <=? 57)) || (c =? 45) || ((97 <=? c) && (c <=? 122)).
+Lemma dec_aux_litch fuel : forall n acc, forallb litch acc = true -> forallb litch (dec_aux fuel n acc) = true.
+Proof.
+  induction fuel as [|f IH]; intros n acc H; [exact H|]. cbn [dec_aux].
+  assert (Hd : litch (48 + n mod 10) = true).
+  { pose proof (N.mod_upper_bound n 10 ltac:(discriminate)) as Hm. set (m := n mod 10) in *. clearbody m. unfold litch.
+    apply orb_true_iff. left. apply orb_true_iff. left. apply andb_true_iff. split; [apply N.leb_le | apply N.leb_le]; lia. }
+  destruct (n / 10 =? 0).
+  - cbn [forallb]. rewrite Hd, H. reflexivity.
+  - apply IH. cbn [forallb]. rewrite Hd, H. reflexivity.
+Qed.
+Lemma lit_litch l : lit_ok l = true -> forallb litch (lit_display l) = true.
+Proof.
+  destruct l as [s|z|n|d|b]; cbn [lit_ok lit_display]; intros H; try discriminate.
+  - destruct (z <? 0)%Z; [|discriminate]. cbn [forallb]. unfold dec. rewrite dec_aux_litch by reflexivity. reflexivity.
+  - unfold dec. apply dec_aux_litch. reflexivity.
+  - destruct b; reflexivity.
+Qed.
+Lemma litch_no_char c s : litch c = false -> forallb litch s = true -> no_char c s.
+Proof. intros Hc H. eapply forallb_no_char; [exact H | exact Hc]. Qed.
+
+Lemma argtoks_wf ka : arg_wfb idc ka = true -> Scan.items_wf (argtoks ka) /\ Forall top_ok (argtoks ka).
+Proof.
+  intros H. destruct (arg_wf_parts idc ka H) as (Hn & Hv). pose proof (key_no_lt _ Hn) as Hk.
+  unfold argtoks. destruct (snd ka) as [its|l]; cbn [rarg_wfb] in Hv.
+  - apply andb_true_iff in Hv as [Hi _]. destruct (aconvs_wf its Hi) as [W T].
+    assert (Ho : no_char c_lt (key_open (fst ka))).
+    { unfold key_open. apply no_char_cons; [intro E; vm_compute in E; discriminate|]. apply no_char_app; [exact Hk|].
+      repeat (apply no_char_cons; [intro E; vm_compute in E; discriminate|]). apply no_char_nil. }
+    split.
+    + cbn [Scan.items_wf]. split; [exact Ho|]. apply items_wf_app; [exact W|]. cbn. split; [|exact I].
+      apply no_char_cons; [intro E; vm_compute in E; discriminate | apply no_char_nil].
+    + constructor; [exact I|]. apply Forall_app. split; [exact T | repeat constructor].
+  - apply text_tok_wf. unfold member_text. cbn [fst snd].
+    apply no_char_cons; [intro E; vm_compute in E; discriminate|]. apply no_char_app; [exact Hk|].
+    repeat (apply no_char_cons; [intro E; vm_compute in E; discriminate|]).
+    apply litch_no_char; [reflexivity | apply lit_litch; exact Hv].
+Qed.
+Lemma memtoks_wf args : forallb (arg_wfb idc) args = true -> Scan.items_wf (memtoks args) /\ Forall top_ok (memtoks args).
+Proof.
+  induction args as [|ka r IH]; intros H; [split; [exact I | constructor]|].
+  cbn [forallb] in H. apply andb_true_iff in H as [Ha Hr]. destruct (argtoks_wf ka Ha) as [W T]. destruct (IH Hr) as [Wr Tr].
+  destruct r as [|kb r']; [cbn [memtoks]; split; assumption|].
+  set (r := kb :: r') in *. change (memtoks (ka :: r)) with (argtoks ka ++ IText [c_comma; 32] :: memtoks r). split.
+  - apply items_wf_app; [exact W|]. cbn [Scan.items_wf]. split; [|exact Wr].
+    repeat (apply no_char_cons; [intro E; vm_compute in E; discriminate|]). apply no_char_nil.
+  - apply Forall_app. split; [exact T|]. constructor; [exact I | exact Tr].
+Qed.
+Lemma refatoks_wf ns path args : kp_wf idc ns path = true -> args_wfb idc args = true ->
+  Scan.items_wf (refatoks ns path args) /\ Forall top_ok (refatoks ns path args).
+Proof.
+  intros Hk Ha. destruct (args_wf_parts idc args Ha) as (_ & _ & Hall). destruct (memtoks_wf args Hall) as [W T].
+  unfold refatoks. split.
+  - cbn [Scan.items_wf]. split.
+    + unfold refa_open, s_fk. cbn [app]. do 3 (apply no_char_cons; [intro E; vm_compute in E; discriminate|]).
+      apply no_char_app; [apply (keypath_no_char idc); try reflexivity; try (intro E; vm_compute in E; discriminate); exact Hk|].
+      repeat (apply no_char_cons; [intro E; vm_compute in E; discriminate|]). apply no_char_nil.
+    + apply items_wf_app; [exact W|]. cbn. split; [|exact I].
+      repeat (apply no_char_cons; [intro E; vm_compute in E; discriminate|]). apply no_char_nil.
+  - constructor; [exact I|]. apply Forall_app. split; [exact T | repeat constructor].
+Qed.
+
+Lemma rconv_wf : forall i, ritem_wfb i = true -> Scan.items_wf (rconv i) /\ Forall top_ok (rconv i).
+Proof.
+  apply (ritem_ind2 (fun i => ritem_wfb i = true -> Scan.items_wf (rconv i) /\ Forall top_ok (rconv i))).
+  - intros s H. apply text_tok_wf. cbn [RoundTripRef1.ritem_wfb] in H. eapply forallb_no_char; [exact H | reflexivity].
+  - intros w1 n w2 fm H. apply text_tok_wf. apply (rnoncomp_no_lt idc); [exact H | reflexivity].
+  - intros w1 n w2 kids a b c IH H. cbn [RoundTripRef1.ritem_wfb] in H. repeat (apply andb_true_iff in H as [H ?]).
+    cbn [rconv]. split; [|repeat constructor; cbn [top_ok]; assumption].
+    cbn [Scan.items_wf]. split; [|exact I]. apply item_wf_comp.
+    refine (conj _ (conj _ (conj _ (conj _ (conj _ (conj _ _)))))); try (apply wsb_all_ws; assumption).
+    + eapply name_ok_of_wf; eassumption.
+    + match goal with Hk : forallb (RoundTripRef1.ritem_wfb idc) kids = true |- _ => rename Hk into Hkids end.
+      clear -IH Hkids. induction IH as [|k r Hk Hr IHr]; [exact I|].
+      cbn [forallb] in Hkids. apply andb_true_iff in Hkids as [H1 H2]. cbn [flat_map].
+      apply items_wf_app; [apply Hk; exact H1 | apply IHr; exact H2].
+  - intros ns path H. apply text_tok_wf. apply (rnoncomp_no_lt idc); [exact H | reflexivity].
+  - intros ns path args H. cbn [RoundTripRef1.ritem_wfb] in H. apply andb_true_iff in H as [H1 H2]. apply refatoks_wf; assumption.
+Qed.
+Lemma rconvs_wf l : ritems_wfb l = true -> Scan.items_wf (rconvs l) /\ Forall top_ok (rconvs l).
+Proof.
+  induction l as [|i r IH]; intros H; [split; [exact I | constructor]|].
+  unfold RoundTripRef1.ritems_wfb in H. cbn [forallb] in H. apply andb_true_iff in H as [Hi Hr].
+  destruct (rconv_wf i Hi) as [W T]. destruct (IH Hr) as [Wr Tr]. unfold rconvs in *. cbn [flat_map].
+  split; [apply items_wf_app; assumption | apply Forall_app; split; assumption].
+Qed.
+Lemma ritems_wf_conv l : ritems_wfb l = true -> Scan.items_wf (rconvs l).
+Proof. intros H. apply rconvs_wf. exact H. Qed.
 
 (** * the component finder, at the level of strings and token trees:
     pre ++ <n> kids </n> ++ rest, where [pre] is ANY text without '<' (generalises
@@ -108,7 +291,7 @@ Qed.
 
 (** ... instantiated on printed sources with references: [pre] holds no top-level component *)
 Lemma find_valid_component_rprinted pre w1 n w2 kids a b c rest fuel :
-  ritems_wfb pre = true -> forallb (fun x => negb (is_rcomp x)) pre = true ->
+  ritems_wfb pre = true -> forallb is_tvr pre = true ->
   ritem_wfb (RComp w1 n w2 kids a b c) = true -> ritems_wfb rest = true ->
   find_valid_component idc true (S fuel) (rprint_list (pre ++ RComp w1 n w2 kids a b c :: rest)) 0
   = Ok (Some (s_comp_ ++ n, rprint_list pre, rprint_list kids, rprint_list rest)).
@@ -124,7 +307,7 @@ Proof.
 Qed.
 
 Lemma find_component_rprinted (new : str -> res pv) pre w1 n w2 kids a b c rest :
-  ritems_wfb pre = true -> forallb (fun x => negb (is_rcomp x)) pre = true ->
+  ritems_wfb pre = true -> forallb is_tvr pre = true ->
   ritem_wfb (RComp w1 n w2 kids a b c) = true -> ritems_wfb rest = true ->
   find_component idc true new (rprint_list (pre ++ RComp w1 n w2 kids a b c :: rest))
   = bind (new (rprint_list pre)) (fun vb => bind (new (rprint_list kids)) (fun vm => bind (new (rprint_list rest)) (fun va =>
@@ -139,6 +322,28 @@ Lemma find_valid_component_none s fuel : no_char c_lt s -> find_valid_component 
 Proof.
   intros H. cbn [find_valid_component]. rewrite drop_bytes_0. unfold find_opening_tag.
   rewrite split_once_c_none by exact H. reflexivity.
+Qed.
+
+(** the finder on any run of tokens after a prefix without '<': nothing, or a component that opens
+    at or after the end of the prefix *)
+Lemma fvc_tokens : forall (L : list Scan.item) pre fuel,
+  no_char c_lt pre -> Scan.items_wf L -> Forall top_ok L ->
+  find_valid_component idc true (S fuel) (pre ++ flats (toks_list L)) 0 = Ok None \/
+  exists k x b a, find_valid_component idc true (S fuel) (pre ++ flats (toks_list L)) 0 = Ok (Some (k, pre ++ x, b, a)).
+Proof.
+  induction L as [|it L IH]; intros pre fuel Hpre W T.
+  - left. cbn [toks_list]. unfold flats. cbn [map concat]. rewrite app_nil_r. apply find_valid_component_none. exact Hpre.
+  - cbn [Scan.items_wf] in W. destruct W as [Wi WL]. inversion T as [|? ? Ti TL]; subst.
+    destruct it as [t|w1 w2 a b c n kids].
+    + rewrite flats_cons_text, app_assoc. cbn [Scan.item_wf] in Wi.
+      destruct (IH (pre ++ t) fuel (no_char_app _ _ _ Hpre Wi) WL TL) as [E|(k & x & bb & aa & E)].
+      * left. exact E.
+      * right. exists k, (t ++ x), bb, aa. rewrite E, <- app_assoc. reflexivity.
+    + right. apply item_wf_comp in Wi. destruct Wi as (A1 & A2 & A3 & A4 & A5 & _ & Hk). cbn [top_ok] in Ti.
+      change (IComp w1 w2 a b c n kids :: L) with ([IComp w1 w2 a b c n kids] ++ L).
+      rewrite flats_toks_app. cbn [toks_list]. rewrite app_nil_r, flats_comp.
+      rewrite (find_valid_component_scan pre w1 n w2 kids a b c L fuel Hpre A1 A2 A3 A4 A5 Ti Hk WL).
+      exists (s_comp_ ++ n), [], (flats (toks_list kids)), (flats (toks_list L)). rewrite app_nil_r. reflexivity.
 Qed.
 
 (** * the foreign-key finder on  pre ++ $t(keypath) ++ rest  where [pre] holds no '$' *)
@@ -167,6 +372,311 @@ Proof.
   rewrite take_bytes_app, drop_bytes_app.
   unfold kp. rewrite (parse_key_path_printed idc ns path Hwf). cbn [bind].
   change (c_rp =? c_comma) with false. cbn [bind].
+  destruct (new (rprint_list pre)) as [vb| | | |]; cbn [bind]; try reflexivity.
+Qed.
+
+(** * references with arguments *)
+(** ** the brace scan of parse_foreign_key_args on a printed argument object *)
+Lemma brace_scan_nobrace t tail pos d : no_char c_lb t -> no_char c_rb t ->
+  brace_scan (t ++ tail) pos d = brace_scan tail (pos + blen t)%nat d.
+Proof.
+  revert pos. induction t as [|c t IH]; intros pos Hl Hr.
+  - cbn [app blen]. f_equal. lia.
+  - inversion Hl; subst. inversion Hr; subst. cbn [app brace_scan blen].
+    destruct (c =? c_lb) eqn:E1; [apply N.eqb_eq in E1; contradiction|].
+    destruct (c =? c_rb) eqn:E2; [apply N.eqb_eq in E2; contradiction|].
+    rewrite IH by assumption. f_equal. lia.
+Qed.
+Lemma brace_scan_var body tail pos d : no_char c_lb body -> no_char c_rb body ->
+  brace_scan (c_lb :: c_lb :: body ++ c_rb :: c_rb :: tail) pos (S d) = brace_scan tail (pos + 4 + blen body)%nat (S d).
+Proof.
+  intros Hl Hr. cbn [brace_scan]. change (c_lb =? c_lb) with true. cbv iota.
+  rewrite brace_scan_nobrace by assumption. cbn [brace_scan].
+  change (c_rb =? c_lb) with false. change (c_rb =? c_rb) with true. cbv iota. cbn [Nat.eqb].
+  change (len_utf8 c_lb) with 1%nat. change (len_utf8 c_rb) with 1%nat. f_equal. lia.
+Qed.
+
+Definition var_body (w1 n w2 : str) (fm : option (str * str * fmt)) : str :=
+  w1 ++ n ++ w2 ++ (match fm with Some (t, w3, _) => c_comma :: t ++ w3 | None => [] end).
+Lemma print_var_body w1 n w2 fm : print (SVar w1 n w2 fm) = c_lb :: c_lb :: var_body w1 n w2 fm ++ c_rb :: c_rb :: [].
+Proof. cbn [print]. unfold s_open_var, s_close_var, var_body. cbn [app]. rewrite <- !app_assoc. reflexivity. Qed.
+Lemma var_body_no_char c w1 n w2 fm : is_ws c = false -> namech c = false -> fmtch c = false -> c <> c_comma ->
+  item_wfb idc (SVar w1 n w2 fm) = true -> no_char c (var_body w1 n w2 fm).
+Proof.
+  intros Hw Hn Hf Hc Hwf. cbn [item_wfb] in Hwf.
+  apply andb_true_iff in Hwf as [Hwf Hfm]. apply andb_true_iff in Hwf as [Hwf Hname].
+  apply andb_true_iff in Hwf as [Hw1 Hw2]. destruct (name_wf_parts idc _ _ Hname) as (_ & Hnc & _).
+  unfold var_body.
+  apply no_char_app; [eapply forallb_no_char; [exact Hw1 | exact Hw]|].
+  apply no_char_app; [eapply forallb_no_char; [exact Hnc | exact Hn]|].
+  apply no_char_app; [eapply forallb_no_char; [exact Hw2 | exact Hw]|].
+  destruct fm as [[[t w3] f]|]; [|apply no_char_nil].
+  unfold fmt_wf in Hfm. apply andb_true_iff in Hfm as [Hfm _]. apply andb_true_iff in Hfm as [Hfm _].
+  apply andb_true_iff in Hfm as [Ht Hw3].
+  apply no_char_cons; [intro E; apply Hc; symmetry; exact E|].
+  apply no_char_app; [eapply forallb_no_char; [exact Ht | exact Hf] | eapply forallb_no_char; [exact Hw3 | exact Hw]].
+Qed.
+
+Lemma tag_nobrace w1 n w2 : wsb w1 = true -> wsb w2 = true -> name_wf s_comp_ n = true ->
+  no_char c_lb (open_tag w1 n w2) /\ no_char c_rb (open_tag w1 n w2).
+Proof.
+  intros H1 H2 Hn. destruct (name_wf_parts idc _ _ Hn) as (_ & Hnc & _). unfold open_tag.
+  split; (apply no_char_cons; [intro E; vm_compute in E; discriminate|]);
+    (apply no_char_app; [eapply forallb_no_char; [exact H1 | reflexivity]|]);
+    (apply no_char_app; [eapply forallb_no_char; [exact Hnc | reflexivity]|]);
+    (apply no_char_app; [eapply forallb_no_char; [exact H2 | reflexivity]|]);
+    (apply no_char_cons; [intro E; vm_compute in E; discriminate | apply no_char_nil]).
+Qed.
+Lemma ctag_nobrace a b n c : wsb a = true -> wsb b = true -> wsb c = true -> name_wf s_comp_ n = true ->
+  no_char c_lb (close_tag a b n c) /\ no_char c_rb (close_tag a b n c).
+Proof.
+  intros H1 H2 H3 Hn. destruct (name_wf_parts idc _ _ Hn) as (_ & Hnc & _). unfold close_tag.
+  split; (apply no_char_cons; [intro E; vm_compute in E; discriminate|]);
+    (apply no_char_app; [eapply forallb_no_char; [exact H1 | reflexivity]|]);
+    (apply no_char_cons; [intro E; vm_compute in E; discriminate|]);
+    (apply no_char_app; [eapply forallb_no_char; [exact H2 | reflexivity]|]);
+    (apply no_char_app; [eapply forallb_no_char; [exact Hnc | reflexivity]|]);
+    (apply no_char_app; [eapply forallb_no_char; [exact H3 | reflexivity]|]);
+    (apply no_char_cons; [intro E; vm_compute in E; discriminate | apply no_char_nil]).
+Qed.
+
+Lemma brace_scan_aitem : forall a, aitem_wfb idc a = true -> forall tail pos d,
+  brace_scan (aprint a ++ tail) pos (S d) = brace_scan tail (pos + blen (aprint a))%nat (S d).
+Proof.
+  apply (aitem_ind2 (fun a => aitem_wfb idc a = true -> forall tail pos d,
+    brace_scan (aprint a ++ tail) pos (S d) = brace_scan tail (pos + blen (aprint a))%nat (S d))).
+  - intros s H tail pos d. cbn [aitem_wfb aprint] in *. apply andb_true_iff in H as [H1 H2]. apply brace_scan_nobrace.
+    + eapply forallb_no_char; [exact H1 | reflexivity].
+    + eapply forallb_no_char; [exact H2 | reflexivity].
+  - intros w1 n w2 fm H tail pos d. cbn [aitem_wfb aprint] in *. rewrite print_var_body. cbn [app]. rewrite <- app_assoc. cbn [app].
+    rewrite brace_scan_var by (apply var_body_no_char; try reflexivity; try (intro E; vm_compute in E; discriminate); exact H).
+    f_equal. cbn [blen]. rewrite blen_app. cbn [blen]. change (len_utf8 c_lb) with 1%nat. change (len_utf8 c_rb) with 1%nat. lia.
+  - intros w1 n w2 kids a b c IH H tail pos d. cbn [aitem_wfb] in H. repeat (apply andb_true_iff in H as [H ?]).
+    destruct (tag_nobrace w1 n w2) as [Ol Or]; try assumption.
+    destruct (ctag_nobrace a b n c) as [Cl Cr]; try assumption.
+    cbn [aprint]. rewrite <- !app_assoc. rewrite brace_scan_nobrace by assumption.
+    match goal with Hk : forallb (aitem_wfb idc) kids = true |- _ => rename Hk into Hkids end.
+    assert (Hk : forall tl p, brace_scan (concat (map aprint kids) ++ tl) p (S d)
+                               = brace_scan tl (p + blen (concat (map aprint kids)))%nat (S d)).
+    { clear -IH Hkids. induction IH as [|k r Hk Hr IHr]; intros tl p.
+      - cbn. f_equal. lia.
+      - cbn [forallb] in Hkids. apply andb_true_iff in Hkids as [H1 H2]. cbn [map concat]. rewrite <- app_assoc.
+        rewrite (Hk H1). rewrite (IHr H2). f_equal. rewrite blen_app. lia. }
+    rewrite Hk. rewrite brace_scan_nobrace by assumption. f_equal. rewrite !blen_app. lia.
+  - intros ns path H tail pos d. cbn [aitem_wfb aprint] in *.
+    apply brace_scan_nobrace; apply (ref_no_char idc); try reflexivity; try (intro E; vm_compute in E; discriminate); exact H.
+Qed.
+Lemma brace_scan_aitems l tail pos d : forallb (aitem_wfb idc) l = true ->
+  brace_scan (aprint_list l ++ tail) pos (S d) = brace_scan tail (pos + blen (aprint_list l))%nat (S d).
+Proof.
+  revert pos. induction l as [|a r IH]; intros pos H.
+  - cbn. f_equal. lia.
+  - cbn [forallb] in H. apply andb_true_iff in H as [Ha Hr]. unfold aprint_list. cbn [map concat]. fold (aprint_list r).
+    rewrite <- app_assoc. rewrite brace_scan_aitem by exact Ha. rewrite IH by exact Hr. f_equal. rewrite blen_app. lia.
+Qed.
+
+Lemma key_nobrace k : name_wf s_var_ k = true -> no_char c_lb k /\ no_char c_rb k.
+Proof.
+  intros H. destruct (name_wf_parts idc _ _ H) as (_ & Hnc & _). split; eapply forallb_no_char; try exact Hnc; reflexivity.
+Qed.
+
+Lemma brace_scan_member ka tail pos d : arg_wfb idc ka = true ->
+  brace_scan (member_text (fst ka, value_text (snd ka)) ++ tail) pos (S d)
+  = brace_scan tail (pos + blen (member_text (fst ka, value_text (snd ka))))%nat (S d).
+Proof.
+  intros H. destruct (arg_wf_parts idc ka H) as (Hn & Hv). destruct (key_nobrace _ Hn) as [Kl Kr].
+  destruct ka as [k a]. cbn [fst snd] in *. destruct a as [its|l]; cbn [rarg_wfb value_text] in *.
+  - apply andb_true_iff in Hv as [Hi _].
+    assert (E : member_text (k, c_quote :: aprint_list its ++ [c_quote]) = key_open k ++ aprint_list its ++ [c_quote]).
+    { unfold member_text, key_open. cbn [fst snd app]. rewrite <- !app_assoc. reflexivity. }
+    assert (Pl : no_char c_lb (key_open k) /\ no_char c_rb (key_open k)).
+    { unfold key_open. split; (apply no_char_cons; [intro X; vm_compute in X; discriminate|]); (apply no_char_app; [assumption|]);
+        repeat (apply no_char_cons; [intro X; vm_compute in X; discriminate|]); apply no_char_nil. }
+    destruct Pl as [Pl Pr].
+    match goal with |- brace_scan (?m ++ _) _ _ = brace_scan _ (_ + blen ?m')%nat _ =>
+      replace m with (key_open k ++ aprint_list its ++ [c_quote]) by (symmetry; exact E);
+      replace m' with (key_open k ++ aprint_list its ++ [c_quote]) by (symmetry; exact E) end.
+    rewrite <- !app_assoc. rewrite brace_scan_nobrace by assumption. rewrite brace_scan_aitems by exact Hi.
+    rewrite brace_scan_nobrace by (apply no_char_cons; [intro X; vm_compute in X; discriminate | apply no_char_nil]).
+    f_equal. rewrite !blen_app. lia.
+  - apply brace_scan_nobrace; unfold member_text; cbn [fst snd];
+      (apply no_char_cons; [intro X; vm_compute in X; discriminate|]); (apply no_char_app; [assumption|]);
+      repeat (apply no_char_cons; [intro X; vm_compute in X; discriminate|]);
+      (apply litch_no_char; [reflexivity | apply lit_litch; exact Hv]).
+Qed.
+Lemma brace_scan_members args tail pos d : forallb (arg_wfb idc) args = true ->
+  brace_scan (members_text (args_text args) ++ tail) pos (S d)
+  = brace_scan tail (pos + blen (members_text (args_text args)))%nat (S d).
+Proof.
+  revert pos. induction args as [|ka r IH]; intros pos H.
+  - cbn. f_equal. lia.
+  - cbn [forallb] in H. apply andb_true_iff in H as [Ha Hr]. destruct r as [|kb r'].
+    + cbn [args_text map members_text]. apply brace_scan_member. exact Ha.
+    + set (r := kb :: r') in *.
+      change (args_text (ka :: r)) with ((fst ka, value_text (snd ka)) :: args_text r).
+      rewrite members_text_cons2 by (unfold r; cbn; discriminate).
+      rewrite <- app_assoc. rewrite brace_scan_member by exact Ha.
+      cbn [app]. change (c_comma :: 32 :: members_text (args_text r) ++ tail) with ([c_comma; 32] ++ members_text (args_text r) ++ tail).
+      rewrite brace_scan_nobrace by (repeat (apply no_char_cons; [intro X; vm_compute in X; discriminate|]); apply no_char_nil).
+      rewrite IH by exact Hr. f_equal. rewrite !blen_app. cbn [blen]. lia.
+Qed.
+
+Lemma brace_scan_obj args tail : forallb (arg_wfb idc) args = true ->
+  brace_scan (32 :: obj_text (args_text args) ++ tail) 0 0 = Ok (Some (2 + blen (members_text (args_text args)))%nat).
+Proof.
+  intros H. unfold obj_text. cbn [app brace_scan]. change (32 =? c_lb) with false. change (32 =? c_rb) with false.
+  change (c_lb =? c_lb) with true. cbv iota. rewrite <- app_assoc. rewrite brace_scan_members by exact H.
+  cbn [app brace_scan]. change (c_rb =? c_lb) with false. change (c_rb =? c_rb) with true. cbv iota. cbn [Nat.eqb].
+  change (len_utf8 32) with 1%nat. change (len_utf8 c_lb) with 1%nat. do 2 f_equal.
+Qed.
+
+(** ** the argument map *)
+Definition on_snd {A B} (f : A -> B) (kv : str * A) : str * B := (fst kv, f (snd kv)).
+Lemma map_insert_map {A B} (f : A -> B) k v m :
+  map (on_snd f) (map_insert k v m) = map_insert k (f v) (map (on_snd f) m).
+Proof.
+  induction m as [|[k' v'] t IH]; [reflexivity|]. cbn [map_insert map on_snd fst snd].
+  destruct (str_eqb k k'); [reflexivity|]. destruct (str_ltb k k'); [reflexivity|].
+  cbn [map on_snd fst snd]. rewrite IH. reflexivity.
+Qed.
+Lemma sorted1_map {A B} (f : A -> B) l : map (on_snd f) (sorted1 l) = sorted1 (map (on_snd f) l).
+Proof.
+  unfold sorted1. change (@nil (str * B)) with (map (on_snd f) (@nil (str * A))). generalize (@nil (str * A)) as acc.
+  induction l as [|kv r IH]; intros acc; [reflexivity|].
+  cbn [map fold_left]. rewrite IH. f_equal. rewrite map_insert_map. reflexivity.
+Qed.
+Lemma fold_prefixed_map {A B} (g : A -> B) (l : list (str * A)) m0 :
+  fold_left (fun m kv => map_insert (s_var_ ++ fst kv) (g (snd kv)) m) l m0
+  = fold_left (fun m kv => map_insert (s_var_ ++ fst kv) (snd kv) m) (map (on_snd g) l) m0.
+Proof. revert m0. induction l as [|kv r IH]; intros m0; [reflexivity|]. cbn [map fold_left on_snd fst snd]. apply IH. Qed.
+Lemma fold_prefixed_mapf {A B} (f : A -> B) (l : list (str * A)) acc :
+  map (on_snd f) (fold_left (fun m kv => map_insert (s_var_ ++ fst kv) (snd kv) m) l acc)
+  = fold_left (fun m kv => map_insert (s_var_ ++ fst kv) (snd kv) m) (map (on_snd f) l) (map (on_snd f) acc).
+Proof.
+  revert acc. induction l as [|kv r IH]; intros acc; [reflexivity|].
+  cbn [map fold_left]. rewrite IH. f_equal. rewrite map_insert_map. reflexivity.
+Qed.
+Lemma sorted2_map {A B} (f : A -> B) l : map (on_snd f) (sorted2 l) = sorted2 (map (on_snd f) l).
+Proof. unfold sorted2. rewrite fold_prefixed_mapf, sorted1_map. reflexivity. Qed.
+
+Lemma in_map_insert {V} (x : str * V) k v m : In x (map_insert k v m) -> x = (k, v) \/ In x m.
+Proof.
+  induction m as [|[k' v'] t IH]; cbn [map_insert]; intros H.
+  - destruct H as [H|[]]. left. symmetry. exact H.
+  - destruct (str_eqb k k').
+    + destruct H as [H|H]; [left; symmetry; exact H | right; right; exact H].
+    + destruct (str_ltb k k').
+      * destruct H as [H|H]; [left; symmetry; exact H | right; exact H].
+      * destruct H as [H|H]; [right; left; exact H|]. destruct (IH H) as [E|E]; [left; exact E | right; right; exact E].
+Qed.
+Lemma in_sorted1 {V} (x : str * V) l : In x (sorted1 l) -> In x l.
+Proof.
+  unfold sorted1. assert (G : forall acc, In x (fold_left (fun m kv => map_insert (fst kv) (snd kv) m) l acc) -> In x l \/ In x acc).
+  { induction l as [|kv r IH]; intros acc H; [right; exact H|]. cbn [fold_left] in H.
+    destruct (IH _ H) as [E|E]; [left; right; exact E|]. apply in_map_insert in E as [E|E]; [|right; exact E].
+    left. left. destruct kv; cbn [fst snd] in E. symmetry. exact E. }
+  intros H. destruct (G [] H) as [E|[]]. exact E.
+Qed.
+
+Definition vnew (new : str -> res pv) (s : str) : pv := match new s with Ok v => v | _ => PLit (LStr []) end.
+Definition jval (new : str -> res pv) (a : jarg) : pv := match a with JString s => vnew new s | JLit l => PLit l end.
+
+Lemma args_fold new (l : list (str * jarg)) m :
+  (forall k a, In (k, a) l -> trim k = k /\ forall s, a = JString s -> exists v, new s = Ok v) ->
+  fold_left (fun acc '(k, a) =>
+      bind acc (fun m => bind (match a with JString s => new s | JLit l => Ok (PLit l) end) (fun v =>
+      Ok (map_insert (s_var_ ++ trim k) v m)))) l (Ok m)
+  = Ok (fold_left (fun m kv => map_insert (s_var_ ++ fst kv) (jval new (snd kv)) m) l m).
+Proof.
+  revert m. induction l as [|[k a] r IH]; intros m H; [reflexivity|].
+  cbn [fold_left]. destruct (H k a (or_introl eq_refl)) as (Et & Hs). cbn [bind]. rewrite Et.
+  destruct a as [s|l].
+  - destruct (Hs s eq_refl) as (v & Ev). rewrite Ev. cbn [bind].
+    rewrite IH by (intros k' a' Hi; apply H; right; exact Hi).
+    cbn [fst snd jval]. unfold vnew. rewrite Ev. reflexivity.
+  - cbn [bind]. rewrite IH by (intros k' a' Hi; apply H; right; exact Hi). reflexivity.
+Qed.
+
+(** the JSON oracle reads a printed argument object as the key-sorted map of its values *)
+Definition jarg_of (a : rarg) : jarg := match a with RAStr its => JString (aprint_list its) | RALit l => JLit l end.
+Definition json_ok : Prop := forall args, args_wfb idc args = true ->
+  json_args (32 :: obj_text (args_text args)) = Ok (sorted1 (map (on_snd jarg_of) args)).
+
+Lemma trim_key k : name_wf s_var_ k = true -> trim k = k.
+Proof.
+  intros H. pose proof (trim_name_padded [] k [] (Forall_nil _) (Forall_nil _) (name_ok_of_wf idc _ _ H)) as T.
+  cbn [app] in T. rewrite app_nil_r in T. exact T.
+Qed.
+
+Definition aval (new : str -> res pv) (a : rarg) : pv :=
+  match a with RAStr its => vnew new (aprint_list its) | RALit l => PLit l end.
+Definition pargs_of (new : str -> res pv) (args : list (str * rarg)) : list (str * pv) :=
+  sorted2 (map (on_snd (aval new)) args).
+
+Lemma args_inner_printed (new : str -> res pv) args : json_ok -> args_wfb idc args = true ->
+  (forall k its, In (k, RAStr its) args -> exists v, new (aprint_list its) = Ok v) ->
+  args_inner json_args new (32 :: obj_text (args_text args)) = Ok (pargs_of new args).
+Proof.
+  intros Hj Hwf Hnew. unfold args_inner. rewrite (Hj args Hwf).
+  destruct (args_wf_parts idc args Hwf) as (_ & _ & Hall).
+  rewrite args_fold.
+  - f_equal. unfold pargs_of, sorted2. rewrite fold_prefixed_map. rewrite sorted1_map. f_equal. f_equal.
+    rewrite map_map. apply map_ext. intros [k a]. unfold on_snd. cbn [fst snd]. destruct a; reflexivity.
+  - intros k a Hi. apply in_sorted1 in Hi. apply in_map_iff in Hi as ([k' a'] & E & Hi). unfold on_snd in E. cbn [fst snd] in E.
+    inversion E; subst. rewrite forallb_forall in Hall. destruct (arg_wf_parts idc _ (Hall _ Hi)) as (Hn & _). cbn [fst] in Hn.
+    split; [apply trim_key; exact Hn|]. intros s Es. destruct a' as [its|l]; cbn [jarg_of] in Es; [|discriminate].
+    inversion Es; subst. apply (Hnew k its). exact Hi.
+Qed.
+
+Lemma fk_args_printed (new : str -> res pv) args rest : json_ok -> args_wfb idc args = true ->
+  (forall k its, In (k, RAStr its) args -> exists v, new (aprint_list its) = Ok v) ->
+  fk_args json_args true new (32 :: obj_text (args_text args) ++ c_rp :: rest) = Ok (pargs_of new args, rest).
+Proof.
+  intros Hj Hwf Hnew. destruct (args_wf_parts idc args Hwf) as (_ & _ & Hall).
+  unfold fk_args. rewrite brace_scan_obj by exact Hall. cbn [bind].
+  set (M := members_text (args_text args)).
+  assert (Eb : (2 + blen M + 1)%nat = blen (32 :: obj_text (args_text args))).
+  { unfold obj_text. fold M. cbn [blen]. rewrite blen_app. cbn [blen]. change (len_utf8 32) with 1%nat.
+    change (len_utf8 c_lb) with 1%nat. change (len_utf8 c_rb) with 1%nat. lia. }
+  rewrite Eb. change (32 :: obj_text (args_text args) ++ c_rp :: rest) with ((32 :: obj_text (args_text args)) ++ c_rp :: rest).
+  rewrite take_bytes_app, drop_bytes_app.
+  assert (Et : trim_start (c_rp :: rest) = c_rp :: rest) by (apply trim_start_nonws; reflexivity).
+  rewrite Et. cbn [strip_prefix]. rewrite N.eqb_refl.
+  rewrite (args_inner_printed new args Hj Hwf Hnew). reflexivity.
+Qed.
+
+Lemma rprint_refa_split pre ns path args rest :
+  rprint_list (pre ++ RRefA ns path args :: rest)
+  = rprint_list pre ++ s_fk ++ (keypath_text ns path ++ c_comma :: (32 :: obj_text (args_text args) ++ c_rp :: rprint_list rest)).
+Proof.
+  rewrite rprint_list_app, rprint_list_cons. cbn [rprint]. unfold print_refa.
+  rewrite <- !app_assoc. cbn [app]. rewrite <- !app_assoc. reflexivity.
+Qed.
+
+Lemma find_foreign_key_args_printed (new : str -> res pv) pre ns path args rest :
+  json_ok -> no_char c_dollar (rprint_list pre) -> ritem_wfb (RRefA ns path args) = true ->
+  (forall k its, In (k, RAStr its) args -> exists v, new (aprint_list its) = Ok v) ->
+  find_foreign_key idc json_args true new (rprint_list (pre ++ RRefA ns path args :: rest))
+  = bind (new (rprint_list pre)) (fun vb => bind (new (rprint_list rest)) (fun va =>
+      Ok (Some (PBloc [vb; PForeign (option_map seg_name ns) (map seg_name path) (pargs_of new args); va])))).
+Proof.
+  intros Hj Hpre Hwf Hnew. cbn [RoundTripRef1.ritem_wfb] in Hwf. apply andb_true_iff in Hwf as [Hkp Hargs].
+  set (kp := keypath_text ns path).
+  rewrite rprint_refa_split. fold kp. unfold find_foreign_key. change s_fk with (c_dollar :: [c_t; c_lp]).
+  rewrite split_once_first_pat by exact Hpre.
+  assert (Hkpc : Forall (fun x => (x =? c_comma) || (x =? c_rp) = false) kp).
+  { pose proof (keypath_no_char idc c_comma ns path Hkp eq_refl eq_refl) as H1.
+    pose proof (keypath_no_char idc c_rp ns path Hkp eq_refl eq_refl) as H2.
+    specialize (H1 ltac:(intro E; vm_compute in E; discriminate) ltac:(intro E; vm_compute in E; discriminate)).
+    specialize (H2 ltac:(intro E; vm_compute in E; discriminate) ltac:(intro E; vm_compute in E; discriminate)).
+    fold kp in H1, H2. unfold no_char in H1, H2. rewrite Forall_forall in H1, H2. apply Forall_forall. intros x Hx.
+    apply orb_false_iff. split; apply N.eqb_neq; [apply H1 | apply H2]; exact Hx. }
+  match goal with |- context [find_idx ?f ?s] =>
+    replace (find_idx f s) with (Some (blen kp)) by (symmetry; apply find_idx_first; [exact Hkpc | reflexivity]) end.
+  rewrite take_bytes_app, drop_bytes_app.
+  unfold kp. rewrite (parse_key_path_printed idc ns path Hkp). cbn [bind].
+  change (c_comma =? c_comma) with true. cbv iota.
+  rewrite (fk_args_printed new args (rprint_list rest) Hj Hargs Hnew). cbn [bind].
   destruct (new (rprint_list pre)) as [vb| | | |]; cbn [bind]; try reflexivity.
 Qed.
 End RT.
